@@ -5,6 +5,7 @@ import BertE.Props.C04
 import BertE.Props.C05
 import BertE.Props.C06
 import BertE.Props.C07
+import BertE.Props.C08
 import BertE.Props.C09
 import BertE.Props.C11
 import BertE.Props.C13
